@@ -621,7 +621,7 @@ func checkConflictClassParity(c *Ctx, rule string) {
 			}
 		}
 	}
-	c.Floor(rule, "expired_returns", n, 6)
+	c.Floor(rule, "expired_returns", n, 3) // one per backend; duplicated return sites may be shared by a helper
 }
 
 var sentinelNames = []string{"ErrQueueFull", "ErrMemoryPressure", "ErrEnvelopeExists", "ErrLeaseNotFound", "ErrLeaseExpired"}
